@@ -195,7 +195,7 @@ def entry_points(case, unit="rad"):
             yield "base.xyt2tr", lambda: base.xyt2tr([t[0], t[1], th], **u)
 
 
-PLANAR_HOM = {"base.trot2", "base.transl2", "base.trot2(t=)", "base.xyt2tr", "base.trinterp2"}
+PLANAR_HOM = {"base.trnorm2", "base.trot2", "base.transl2", "base.trot2(t=)", "base.xyt2tr", "base.trinterp2"}
 
 
 def result_T4(label, v):
@@ -362,6 +362,65 @@ def interp_entry_points(case):
         yield "base.slerp", lambda: UnitQuaternion(base.slerp(qa, qb, s), norm=False, check=False)
         yield "base.slerp(shortest)", lambda: UnitQuaternion(base.slerp(qa, qb, s, shortest=True), norm=False,
                                                               check=False)
+
+
+def norm_entry_points(case):
+    """v-norm cases: a member spoiled by the named noise, then normalised through the named entry point"""
+    import gamma
+    from spatialmath import Quaternion
+    p = case["par"]
+    e, nz = p["entry"], p["noise"]
+    R = _axis_rot(p["dir"], 0.7) @ gamma.rotz(0.4)
+    t = np.array([1.0, -2.0, 0.5])
+    th = 0.7
+
+    def spoil(M, n):
+        M = np.array(M, dtype=float, copy=True)
+        B = M[:n, :n]
+        if nz.startswith("round-"):
+            B[:] = np.round(B, int(nz[-1]))
+        elif nz == "entry+1e-3":
+            B[0, 1] += 1e-3
+        elif nz == "entry+1e-6":
+            B[n - 1, 0] += 1e-6
+        elif nz == "shear-1e-2":
+            B[:, 1] += 1e-2 * B[:, n - 1]
+        elif nz == "scale-1.001":
+            B *= 1.001
+        elif nz == "column-scale-1.01":
+            B[:, 0] *= 1.01
+        return M
+    R2 = np.array([[math.cos(th), -math.sin(th)], [math.sin(th), math.cos(th)]])
+    if e == "trnorm(R)":
+        yield "base.trnorm(R)", lambda: base.trnorm(spoil(R, 3))
+    elif e == "trnorm(T)":
+        yield "base.trnorm(T)", lambda: base.trnorm(spoil(base.rt2tr(R, t), 3))
+    elif e == "SO3.norm":
+        yield "SO3.norm", lambda: SO3(spoil(R, 3), check=False).norm()
+    elif e == "SE3.norm":
+        yield "SE3.norm", lambda: SE3(spoil(base.rt2tr(R, t), 3), check=False).norm()
+    elif e == "trnorm2(R)":
+        yield "base.trnorm2(R)", lambda: base.trnorm2(spoil(R2, 2))
+    elif e == "trnorm2(T)":
+        yield "base.trnorm2", lambda: base.trnorm2(spoil(base.rt2tr(R2, t[:2]), 2))
+    elif e == "SO2.norm":
+        yield "SO2.norm", lambda: SO2(spoil(R2, 2), check=False).norm()
+    elif e == "SE2.norm":
+        yield "SE2.norm", lambda: SE2(spoil(base.rt2tr(R2, t[:2]), 2), check=False).norm()
+    else:
+        q = base.r2q(R)
+        k = {"round-2": 1.0, "round-3": 1.0, "round-4": 1.0, "entry+1e-3": 1.0, "entry+1e-6": 1.0, "shear-1e-2": 1.0,
+             "scale-1.001": 1.001, "column-scale-1.01": 1.01, "none": 1.0}[nz]
+        qs = np.round(q, int(nz[-1])) if nz.startswith("round-") else q * k
+        if nz.startswith("entry"):
+            qs = q.copy()
+            qs[1] += 1e-3 if nz.endswith("1e-3") else 1e-6
+        if e == "UnitQuaternion.unit":
+            yield "UnitQuaternion.unit", lambda: UnitQuaternion(qs, norm=False, check=False).unit()
+        elif e == "Quaternion.unit":
+            yield "Quaternion.unit", lambda: Quaternion(qs * 3.0).unit()
+        else:
+            yield "base.unit", lambda: UnitQuaternion(base.unit(qs * 0.2), norm=False, check=False)
 
 
 def expected_T4(case):
